@@ -280,6 +280,7 @@ func SlashModelCheck(w *World, pre, post *Snap, val string, fdec math.LegacyDec,
 				// each removal is off by up to 2e-18 x tokens shares; a share is worth V/S_after tokens afterwards
 				// (this dominates when nearly all shares of the validator are removed: cancellation)
 				extra = new(big.Rat)
+				shareErr := new(big.Rat)
 				if Safter := l.S[vd]; Safter != nil && Safter.Sign() > 0 {
 					// shares removed in total, and the 18-digit error of computing them: the validator's token
 					// value vs/tvs*TT carries a relative error of 1e-18*TT/valTokens, the quotient S/valTokens
@@ -300,6 +301,7 @@ func SlashModelCheck(w *World, pre, post *Snap, val string, fdec math.LegacyDec,
 					// tolerance of 0.01 shares
 					dsh.Add(dsh, new(big.Rat).Mul(big.NewRat(1, 100), ratI64(int64(len(hs)))))
 					extra.Mul(dsh, new(big.Rat).Quo(vt, Safter))
+					shareErr = dsh
 				}
 				msg := cmp(l, pks)
 				if msg == "" {
@@ -309,7 +311,7 @@ func SlashModelCheck(w *World, pre, post *Snap, val string, fdec math.LegacyDec,
 				// below one delegator share on (validator, asset) the module converts tokens to shares 1:1
 				// (recorded mechanisms dust-capture / subshare-stuck): share arithmetic is not what the
 				// property describes there; such dust groups are outside its domain
-				if Sa := l.S[vd]; Sa != nil && Sa.Cmp(ratI64(1)) < 0 {
+				if Sa := l.S[vd]; Sa != nil && new(big.Rat).Sub(Sa, shareErr).Cmp(ratI64(1)) < 0 {
 					ok = true
 					break
 				}
